@@ -5,8 +5,8 @@ import json
 HARNESS_FAMILY = 'sasl'
 TRACE_SPEC = ('TraceSasl.tla', 'TraceSasl.cfg')
 INVS = ['NoViolation', 'SuccessMeansVerified', 'Emit']
-ALL = '{"empty", "validFirst", "foreignNonce", "truncNonce", "malFirst", "validFinal", "otherFinal", "emptyFinal", "staleFinal", "keyedFinal", "truncFinal", "bareV", "junk", "ok235", "fail535"}'
-CORE = '{"empty", "validFirst", "foreignNonce", "validFinal", "staleFinal", "keyedFinal", "truncFinal", "ok235"}'
+ALL = '{"empty", "validFirst", "foreignNonce", "truncNonce", "malFirst", "validFinal", "otherFinal", "emptyFinal", "staleFinal", "keyedFinal", "truncFinal", "zeroKeyFinal", "bareV", "junk", "ok235", "fail535"}'
+CORE = '{"empty", "validFirst", "foreignNonce", "validFinal", "staleFinal", "keyedFinal", "zeroKeyFinal", "ok235"}'
 NODEV = dict(DEV_Bare235='FALSE', DEV_EmptyStateFinal='FALSE')
 STAGES = {
     'C15': {
